@@ -55,7 +55,7 @@ RULE = ('histories of 1-30 packets: sACN from <= 8 CIDs with priorities {0,99,10
         'ways, expiry boundary, full sequence sweep); Art-Net from <= 4 addresses (incl. the wildcard address), '
         'HTP and LTP, gaps around 10 s, length-field/data-length mismatches; plus static-look histories: a sender repeating a byte-identical frame (sACN: with advancing sequence numbers) in short gaps summing past 10 s / 2.5 s next to a concurrently changing sender, then a late third (sACN: further/7th) sender. Compared after every packet: '
         'callback count, priority byte, registered buffer (SPEC) and the tracked-source tables (internal). '
-        'non-trivial = at least one callback and at least two distinct output buffers in the trace; '
+        'After every packet the model driver also evaluates the extracted text-level specification (TextSpec/TextCheck: text_out, xstep, verdict; Art-Net: atext_step) and prints SPEC key txt = buffer agrees with the property text at every packet, or departs from it only in a classified way (known= hand-down gap / stale after discard / sequence window forgotten); histories with more than six live top-priority sources are not judged (text silent on which six). non-trivial = at least one callback and at least two distinct output buffers in the trace; '
         'distinct = distinct model output line')
 ASSUMPTIONS = ['time is supplied through interposed clock_gettime/gettimeofday (virtual, microseconds)',
                'one registered universe / one Art-Net output port per history',
@@ -70,7 +70,7 @@ TRUSTED = ['modelled rather than verified: DMPE131Inflator::HandlePDUData/TrackS
 class _SpecKeys(object):
     """o<i> = callback|priority|buffer after packet i are property-determined; t<i> are internals."""
     def __contains__(self, k):
-        return k.startswith('o') or k == 'expiry_us' or k == 'dev'
+        return k.startswith('o') or k == 'expiry_us' or k == 'txt'
 SPEC_KEYS = _SpecKeys()
 
 PRIOS = [0, 99, 100, 101, 200, 201, 255]
@@ -372,8 +372,9 @@ LEVEL_TEXT = ('Coq theorems, by induction over every packet history, about an ex
               '10 s, and a third sender changes nothing. PARTIAL: the refinement guards are sufficient, not '
               'necessary (G_flat excludes all histories with concurrently live sources at different priorities; '
               'the hand-down, discard-without-re-merge and returning-sender departures are exhibited as Examples); '
-              'the Art-Net text-level completeness (every sender accepted within 10 s still holds a slot) is not '
-              'proved. Model tied to the C++ by a differential correspondence check after every packet (ASan/UBSan '
+              'the text-level output is evaluated by the check on every generated history (key txt) with the departures '
+              'classified by TextCheck.verdict (meaning of verdicts proved, exactness of the shadow flag w.r.t. the '
+              'receiver not proved); the Art-Net text-level statement is checked per history (atext_step), not proved. Model tied to the C++ by a differential correspondence check after every packet (ASan/UBSan '
               'build of the /repo working tree, virtual clock) and regenerated constants.')
 LEVEL_NOTE = ('Trusted: Coq kernel, extraction (ExtrOcamlBasic), OCaml/C++ glue incl. the clock_gettime/'
               'gettimeofday interposers and MockUDPSocket, generator coverage of the correspondence; model = code '
